@@ -28,8 +28,9 @@ type twinPair struct {
 	props      []string
 	why        string
 	byName     bool // locals named in subst are compared by name (through subst); all others by order of first use
-	// looseCallees: the pair is known (by reading) to use different helpers; a shape difference is then not examined further
-	looseCallees bool
+	// calleeAllow: helpers that one twin of the pair uses and the other does not, by design (confirmed by reading); when the
+	// shapes differ, any OTHER difference between the two sets of callees is reported
+	calleeAllow []string
 }
 
 func twinTokens(info *types.Info, fd *ast.FuncDecl, byName map[string]bool) []string {
@@ -204,14 +205,28 @@ func runTwin(c *core.Ctx) []core.Obligation {
 			}
 			sort.Strings(onlyA)
 			sort.Strings(onlyB)
-			if len(onlyA)+len(onlyB) > 0 && !tp.looseCallees {
+			allow := map[string]bool{}
+			for _, a := range tp.calleeAllow {
+				allow[a] = true
+			}
+			filter := func(xs []string) []string {
+				var out []string
+				for _, x := range xs {
+					if !allow[x] {
+						out = append(out, x)
+					}
+				}
+				return out
+			}
+			onlyA, onlyB = filter(onlyA), filter(onlyB)
+			if len(onlyA)+len(onlyB) > 0 {
 				obs = append(obs, core.Ob("R-TWIN", construct, site, fb.FullName(), core.Violated,
 					fmt.Sprintf("the two functions have different shapes AND call different helpers: %s (after the substitution) calls {%s} that %s does not, which calls {%s} instead - the pair was declared as mirror images (%s), so one of them no longer computes the mirrored quantity", name(tp.recvA, tp.fnA), strings.Join(onlyA, ", "), name(tp.recvB, tp.fnB), strings.Join(onlyB, ", "), tp.why)))
 				break
 			}
 			o := core.Ob("R-TWIN", construct, site, fb.FullName(), core.Discharged, "not compared token by token - the two functions have different shapes; they call the same helpers under the substitution")
-			if tp.looseCallees {
-				o.Detail = "not compared - the two functions have different shapes (and, by design, different helpers)"
+			if len(tp.calleeAllow) > 0 {
+				o.Detail += " (apart from " + strings.Join(tp.calleeAllow, ", ") + ", which one of them uses by design)"
 			}
 			o.Trivial = true
 			obs = append(obs, o)
@@ -275,9 +290,14 @@ var twinPairs = func() []twinPair {
 		for _, m := range []string{"updateDistanceToPoint", "updateDistanceToEdge", "updateDistanceToCell", "visitContainingShapes", "setMaxError", "distance", "capBound"} {
 			// the furthest-edge capBound (all four kinds) and the point target's visitContainingShapes work through the
 			// antipode of the target (Mul(-1), a cap rebuilt around the antipodal centre): different helpers by design
-			loose := m == "capBound" || (t == "Point" && m == "visitContainingShapes")
+			var loose []string
+			if m == "capBound" {
+				loose = []string{"Mul", "CapFromCenterAngle", "Center", "Radius"}
+			} else if t == "Point" && m == "visitContainingShapes" {
+				loose = []string{"Mul"}
+			}
 			ps = append(ps, twinPair{pkg: "s2", recvA: "MinDistanceTo" + t + "Target", fnA: m, recvB: "MaxDistanceTo" + t + "Target", fnB: m, subst: minMaxSubst, props: c08,
-				why: "closest-edge and furthest-edge target of the same kind", looseCallees: loose})
+				why: "closest-edge and furthest-edge target of the same kind", calleeAllow: loose})
 		}
 	}
 	// the three update methods of one ShapeIndex target differ only in the sub-target they construct
@@ -298,7 +318,7 @@ var twinPairs = func() []twinPair {
 			subst: map[string]string{"ChainCrossingSign": "EdgeOrVertexChainCrossing"}},
 		twinPair{pkg: "s2", recvA: "Loop", fnA: "ContainsCell", recvB: "Polygon", fnB: "ContainsCell", props: []string{"C05"}, why: "loop and polygon version of the cell predicate", subst: map[string]string{"Loop": "Polygon"}},
 		twinPair{pkg: "s2", recvA: "Loop", fnA: "IntersectsCell", recvB: "Polygon", fnB: "IntersectsCell", props: []string{"C05"}, why: "loop and polygon version of the cell predicate", subst: map[string]string{"Loop": "Polygon"}},
-		twinPair{pkg: "s2", recvA: "Loop", fnA: "boundaryApproxIntersects", recvB: "Polygon", fnB: "boundaryApproxIntersects", props: []string{"C05"}, why: "loop and polygon version of the boundary test", subst: map[string]string{"Loop": "Polygon"}, looseCallees: true}, // the polygon reads edges through its index shape
+		twinPair{pkg: "s2", recvA: "Loop", fnA: "boundaryApproxIntersects", recvB: "Polygon", fnB: "boundaryApproxIntersects", props: []string{"C05"}, why: "loop and polygon version of the boundary test", subst: map[string]string{"Loop": "Polygon"}, calleeAllow: []string{"Vertex", "Edge", "Shape"}}, // the polygon reads edges through its index shape
 		twinPair{pkg: "s2", recvA: "CellID", fnA: "ChildBegin", recvB: "CellID", fnB: "ChildEnd", props: []string{"C01", "C11", "C12"}, why: "first child and one-past-last child",
 			subst: map[string]string{"-": "+"}},
 		twinPair{pkg: "s2", recvA: "CellID", fnA: "ChildBeginAtLevel", recvB: "CellID", fnB: "ChildEndAtLevel", props: []string{"C01", "C11", "C12"}, why: "first and one-past-last descendant at a level",
@@ -320,7 +340,7 @@ var twinPairs = func() []twinPair {
 			subst: map[string]string{"CellUnion": "InteriorCellUnion"}},
 		twinPair{pkg: "s2", recvA: "Polygon", fnA: "anyLoopContains", recvB: "Polygon", fnB: "anyLoopIntersects", props: []string{"C07"}, why: "existential loop tests of the polygon relations",
 			subst: map[string]string{"Contains": "Intersects"}},
-		twinPair{pkg: "s2", recvA: "", fnA: "updateEdgePairMinDistance", recvB: "", fnB: "updateEdgePairMaxDistance", props: []string{"C08", "C17"}, why: "edge-pair distance from the four vertex-edge cases", subst: minMaxSubst, looseCallees: true}, // the maximum version first tests the antipodal crossing (Mul(-1))
+		twinPair{pkg: "s2", recvA: "", fnA: "updateEdgePairMinDistance", recvB: "", fnB: "updateEdgePairMaxDistance", props: []string{"C08", "C17"}, why: "edge-pair distance from the four vertex-edge cases", subst: minMaxSubst, calleeAllow: []string{"Mul"}}, // the maximum version tests the crossing of the antipodal edge (Mul(-1))
 		twinPair{pkg: "s2", recvA: "minDistance", fnA: "updateDistance", recvB: "maxDistance", fnB: "updateDistance", props: c08, why: "distance update of the two query families", subst: minMaxSubst},
 		twinPair{pkg: "s2", recvA: "", fnA: "NewMinDistanceToShapeIndexTarget", recvB: "", fnB: "NewMaxDistanceToShapeIndexTarget", props: c08, why: "constructors of the two ShapeIndex targets", subst: minMaxSubst},
 		twinPair{pkg: "s2", recvA: "minDistance", fnA: "fromChordAngle", recvB: "maxDistance", fnB: "fromChordAngle", props: c08, why: "distance wrappers of the two query families", subst: minMaxSubst},
@@ -434,7 +454,6 @@ func twinConstruct(tp twinPair) string {
 	}
 	return "twin:" + tp.pkg + "." + name(tp.recvA, tp.fnA) + "~" + name(tp.recvB, tp.fnB)
 }
-
 
 // twinCallees: names of the library functions fn calls statically, mapped through subst.
 func twinCallees(c *core.Ctx, f *types.Func, subst map[string]string) map[string]bool {
